@@ -27,10 +27,10 @@ LD = np.longdouble
 K_STIFF, C_DAMP = -40.0, -3.0
 
 
-def ref_weights(dim, shape, dx, pos):
+def ref_weights(dim, shape, dx, pos, shift=None):
     """Dense reference weight field (cosine kernel) for one marker: w[cells] such that
     U = sum(w * u) * dx^d.  pos: (dim,) x,y[,z]."""
-    w1 = [delta.weights_1d("cosine", float(pos[k]), dx, shape[dim - 1 - k]) for k in range(dim)]
+    w1 = [delta.weights_1d("cosine", float(pos[k]), dx, shape[dim - 1 - k], shift) for k in range(dim)]
     out = np.ones(shape, dtype=LD)
     for a in range(dim):
         sh = [1] * dim
@@ -40,8 +40,10 @@ def ref_weights(dim, shape, dx, pos):
 
 
 class Body:
-    def __init__(self, dim, idx, shape, dx, real_t, forcing, velocity, reset):
+    def __init__(self, dim, idx, shape, dx, real_t, forcing, velocity, reset, shift=None):
         import sopht.simulator as sps
+
+        self.shift = shift  # eul_grid_coord_shift passed to the constructor (None = library default dx / 2)
 
         self.dim, self.idx, self.shape, self.dx = dim, idx, shape, dx
         cx = [shape[-1] * dx * (0.42 + 0.14 * idx), shape[-2] * dx * (0.5 + 0.03 * idx), (shape[0] * dx * 0.5 if dim == 3 else 0.0)]
@@ -56,7 +58,7 @@ class Body:
         self.inter = sps.RigidBodyFlowInteraction(
             rigid_body=self.body, eul_grid_forcing_field=forcing, eul_grid_velocity_field=velocity,
             virtual_boundary_stiffness_coeff=K_STIFF, virtual_boundary_damping_coeff=C_DAMP, dx=dx, grid_dim=dim, real_t=real_t,
-            forcing_grid_cls=cls, enable_eul_grid_forcing_reset=reset, **kw)
+            forcing_grid_cls=cls, enable_eul_grid_forcing_reset=reset, **({} if shift is None else {"eul_grid_coord_shift": real_t(shift)}), **kw)
         n = self.inter.forcing_grid.num_lag_nodes
         # reference PI machine
         self.ref_integral = np.zeros((dim, n), dtype=LD)
@@ -95,8 +97,9 @@ class Body:
 
 
 class System:
-    def __init__(self, dim, nbodies, reset, dtype):
+    def __init__(self, dim, nbodies, reset, dtype, shifts=None):
         self.dim, self.nb, self.reset = dim, nbodies, reset
+        shifts = shifts or [None] * nbodies
         self.real_t = np.dtype(dtype).type
         self.dx = lagcomm.DXS[0]
         self.shape = lagcomm.SHAPES[dim]
@@ -112,7 +115,7 @@ class System:
         self.ref_forcing = np.zeros((dim, *self.shape), dtype=LD)
         self.ref_forcing_mag = np.zeros((dim, *self.shape), dtype=np.float64)
         self.ref_force_total = 0.0  # sum of |marker force| spread so far (absolute rounding scale of near-zero weights)
-        self.bodies = [Body(dim, b, self.shape, self.dx, self.real_t, self.forcing, self.velocity, reset) for b in range(nbodies)]
+        self.bodies = [Body(dim, b, self.shape, self.dx, self.real_t, self.forcing, self.velocity, reset, shift=shifts[b]) for b in range(nbodies)]
 
     # ---- reference model
     def ref_evaluate(self, b: Body, spread: bool):
@@ -124,7 +127,7 @@ class System:
         W = []
         vel = self.velocity.astype(LD)
         for m in range(n):
-            w = ref_weights(self.dim, self.shape, self.dx, X[:, m])
+            w = ref_weights(self.dim, self.shape, self.dx, X[:, m], b.shift)
             W.append(w)
             for k in range(self.dim):
                 U[k, m] = (w * vel[k]).sum() * LD(self.dx) ** self.dim
@@ -203,17 +206,17 @@ class System:
         return explore.array_state_key(*parts)
 
 
-def case_history(dim, nbodies, reset, dtype, depth):
+def case_history(dim, nbodies, reset, dtype, depth, shifts=None):
     real_t = np.dtype(dtype).type
     eps = float(np.finfo(real_t).eps)
     events = []
     for b in range(nbodies):
         events += [("E", b), ("L", b), ("Ta", b), ("Tb", b), ("M", b)]
     events.append(("F", None))
-    tag = f"dim={dim}:bodies={nbodies}:reset={reset}"
+    tag = f"dim={dim}:bodies={nbodies}:reset={reset}" + (f":shifts={shifts}" if shifts else "")
 
     def build():
-        return System(dim, nbodies, reset, dtype)
+        return System(dim, nbodies, reset, dtype, shifts)
 
     def apply_event(s, ev):
         s._pre_vel = s.velocity.tobytes()
@@ -302,9 +305,15 @@ def run(r) -> None:
                 cases.append(dict(dim=dim, nbodies=1, reset=reset, dtype=dt, depth=d1))
                 if not (quick and dt == "float32"):
                     cases.append(dict(dim=dim, nbodies=2, reset=reset, dtype=dt, depth=d2))
+    # constructor options differing between bodies created in one process: the grid coordinate shift
+    # (cell-centred default dx/2 vs a node-centred grid, shift 0) in both construction orders
+    for dim in (2, 3):
+        for shifts in ([None, 0.0], [0.0, None], [0.03125, None]):
+            cases.append(dict(dim=dim, nbodies=2, reset=False, dtype="float64", depth=d2, shifts=shifts))
+        cases.append(dict(dim=dim, nbodies=1, reset=True, dtype="float32", depth=d2, shifts=[0.0]))
     cases.sort(key=lambda c: -(c["nbodies"] * 10 + c["dim"]))
     r.run_cases("pi-history-bfs", "history", cases)
     r.run_cases("fresh-object-replay", "fresh_replay", [dict(dim=d, reset=x, dtype="float64") for d in (2, 3) for x in (False, True)])
-    r.bounds = {"depth_one_body": d1, "depth_two_bodies": d2, "events": ["E_i", "L_i", "T_i(1/4)", "T_i(1/8)", "M_i (3 poses)", "F (2 flow fields)"], "modes": ["accumulate", "reset"]}
+    r.bounds = {"depth_one_body": d1, "depth_two_bodies": d2, "events": ["E_i", "L_i", "T_i(1/4)", "T_i(1/8)", "M_i (3 poses)", "F (2 flow fields)"], "modes": ["accumulate", "reset"], "grid_coordinate_shift": ["default dx/2", "0.0", "dx/4"], "construction_orders": "both"}
     r.extra["rule"] = "BFS over event histories on real interaction objects; state = bytes of mismatch/forcing fields, clocks, body arrays, Eulerian forcing and velocity fields; states re-entered by snapshot/restore (validated against fresh-object replays)"
     r.assumptions = ["marker kinematics taken from the forcing grid (C09's subject)", "reference interpolation/spreading uses the cosine delta in longdouble (C06/C07's subject)"]
